@@ -94,7 +94,10 @@ def mirror_tests(cfg: CFG, orders: set[str]):
                 covered |= {id(o) for o in ops}
     for t in cfg.nodes:
         if t.kind == "stmt" and t.ast is not None:
-            ops = [o for o in _order_ops(t.ast, None, orders) if id(o) not in covered]
+            # only removals may go unguarded: appending to an *empty* order list would make the renderer switch to it and drop
+            # every binding that is not listed
+            ops = [o for o in _order_ops(t.ast, None, orders) if id(o) not in covered
+                   and (isinstance(o, ast.Delete) or (isinstance(o, ast.Call) and o.func.attr in ("remove", "pop")))]
             if ops:
                 out.append((t, ops))
                 covered |= {id(o) for o in ops}
